@@ -761,6 +761,7 @@ pub fn gen_spec(seed: u64, focus: &str, tier: &str) -> RunSpec {
     if cfg.stress_factor.is_some() && meta_every == 1 {
         meta_every = 17;
     }
+    let mmap_faults = sr.chance(1, 5);
     let sched = SchedConfig {
         seed: sr.next_u64(),
         strategy,
@@ -769,8 +770,10 @@ pub fn gen_spec(seed: u64, focus: &str, tier: &str) -> RunSpec {
         spurious_ppm: if sr.chance(1, 2) { *sr.pick(&[200u32, 2000, 20000]) } else { 0 },
         stall_ppm: if sr.chance(1, 3) { 500 } else { 0 },
         stall_len: sr.range(10, 2000) as u32,
-        mmap_fault_ppm: 0,
-        mmap_fault_after: u64::MAX,
+        // a failing mmap ends the run through the documented MmapOutOfMemory call-back; the
+        // interesting part is everything mmtk-core did before and on the way there
+        mmap_fault_ppm: if matches!(focus, "C10" | "C03" | "C28") && mmap_faults { *sr.pick(&[2_000u32, 20_000, 100_000]) } else { 0 },
+        mmap_fault_after: if matches!(focus, "C10" | "C03" | "C28") && mmap_faults { sr.range(5, 60) } else { u64::MAX },
         clock_mode: if focus == "C38" { sr.range(1, 3) as u32 } else { sr.below(4) as u32 },
         site_mask: mask,
         max_run: *sr.pick(&[100u64, 500, 2000]),
